@@ -7,15 +7,29 @@
 (* that does not have the shape of its type, a panic, a crash or a hang is *)
 (* an event without an action.                                             *)
 (*   env TRACE = ndjson of {ev: "Value", t: type, v: value dump}           *)
+(*                     or {ev: "Finite", v: value dump}   (C13)            *)
 (***************************************************************************)
 EXTENDS XrTypeAlg, IOUtils
 
 Rec == ndJsonDeserialize(IOEnv.TRACE)
 VARIABLE l
 Init == l = 1
+\* C13: whatever its type, no float anywhere inside an exported value is NaN or infinite.
+\* A float is recorded by its IEEE-754 class (from the biased exponent and the mantissa):
+\*   "zero", "subnormal", "normal" are finite; "inf" and "nan" have no action.
+FiniteClass == {"zero", "subnormal", "normal"}
+RECURSIVE AllFinite(_)
+AllFinite(v) ==
+    CASE v.t = "float" -> v.class \in FiniteClass /\ v.finite
+      [] v.t \in {"seq", "stack", "struct", "set"} -> \A i \in 1..Len(v.v) : AllFinite(v.v[i])
+      [] v.t = "map" -> \A i \in 1..Len(v.v) : AllFinite(v.v[i][1]) /\ AllFinite(v.v[i][2])
+      [] v.t = "opt" -> (v.has => AllFinite(v.v))
+      [] v.t = "union" -> AllFinite(v.v)
+      [] OTHER -> TRUE                \* int, str, bool, fn, gen, native, err, violation
+
 Next == /\ l <= Len(Rec)
-        /\ Rec[l].ev = "Value"
-        /\ HasShape(Rec[l].v, Rec[l].t)
+        /\ \/ Rec[l].ev = "Value" /\ HasShape(Rec[l].v, Rec[l].t)
+           \/ Rec[l].ev = "Finite" /\ AllFinite(Rec[l].v)
         /\ l' = l + 1
 Spec == Init /\ [][Next]_l
 
